@@ -6,34 +6,41 @@ One case = one OPERATION SEQUENCE on ONE real `PerceptionEvaluationManager` (bui
 
     add(frame k, estimate list e, critical filter a, pass/fail b) | scene | lookup(t)
 
+Processes.  The check process itself evaluates nothing.  The sequence runs in a child process forked from a server that has
+only IMPORTED the library, and every history-free reference evaluation ("the same call with no history": a new manager, for
+tracking the predecessor call and the call) runs in a child of its own.  So (i) nothing the library keeps at module / class
+level can be shared between the stateful call and its reference (a memo of the critical filter keyed by the frame's time
+stamp - defect F5 re-introduced as a cache - is now seen), and (ii) a case leaves nothing behind for the next one: it behaves
+in a replay exactly as in the run.  Budgets are case counts; no wall clock decides what is run.
+
 Tie to the code (lock-step): the Lean state machine `PEval.Manager.run` is stepped over an abstraction
 of the same operations.  Its abstract single-frame evaluation (`Sem.evalDet` / `Sem.evalTrack`) is
-instantiated with what a FRESH real manager computes for that call alone (for tracking: for the
+instantiated with what the history-free reference computes for that call alone (for tracking: for the
 predecessor call and that call alone): per target label the stored object results as
 (estimate id, GT id, confidence as exact Fraction, TP value under every configured threshold for AP and
 APH) and the ground-truth counts.  Compared after every operation: frame scores of the STATEFUL
-manager vs the model's (which only knows the fresh evaluation), scene scores vs the model's pooled
-scores (1e-9), look-ups, the dataset.
+manager vs the model's (which only knows the history-free evaluation), scene scores vs the model's pooled
+scores (1e-9), look-ups (the NAME of the frame handed out), the dataset.
 
 Tracking managers additionally run the EXTENDED machine `PEval.ManagerTracking.trun` (driver op `trun`): the stored
-object results of every fresh evaluation are also handed over per label in the vocabulary of the CLEAR model (uuid
+object results of every reference evaluation are also handed over per label in the vocabulary of the CLEAR model (uuid
 numbers, labels, matching value per mode, is_label_correct), and the model COMPUTES every per-frame tracking score
 (`evalClear [previous stored bucket, current bucket]`) and the scene tracking score (`evalClear` over
 `[[]] ++ stored buckets`, summed GT counts).  Compared: MOTA, MOTP, id switches, tp, fp, tp_matching_score,
-predict_num, num_ground_truth per label and threshold list, and `_sum_clear()`, for every add and every scene.
+predict_num, num_ground_truth per label and threshold list (and the private `_sum_clear()` total when it can be resolved), for
+every add and every scene.
 
-Oracle (independent of the model): the property text on the real outputs — same call, different
-prefixes, same result (vs a fresh manager and among repetitions); dataset and caller's estimate lists
-untouched after every operation (these snapshots, the fresh-manager comparison and the identity test of look-ups are the real-code
-side of the heap discipline of `PEval/Model/ManagerHeap.lean`: `heap_cells_unchanged`, `add_detection_history_free_heap`); every
-STORED frame result still holds the object results / ground truths it held right after its own add (`stored_results_stay_good`);
-scene score = recomputation from `manager.frame_results` with own
-pooling and fresh `MetricsScore`/`Map` objects; GT counts add up; one-frame scene = that frame's score;
-pooled AP invariant under a permuted insertion order (real manager run on the permuted order) when
-the pooled confidences are pairwise distinct.  Tracking: scene CLEAR = freshly constructed real
-`TrackingMetricsScore` / `CLEAR` objects on `[[]] ++ buckets of manager.frame_results` with the summed GT counts;
-per-frame CLEAR = fresh `CLEAR` on `[bucket of the previously stored result, bucket of this one]`; scene tp / fp /
-id switches / matching score = sums of the ones stored in the frame results.
+Oracle (independent of the model): the property text on the real outputs, clause by clause (each clause quotes its sentence):
+same call, different prefixes, same result (vs the history-free reference and among repetitions; tracking: vs predecessor +
+call); dataset (objects with pose, size, velocity, point number, visibility; the transforms registered when the case started)
+and the caller's estimate lists (content and element identity) untouched after every operation; every frame result handed to the
+caller keeps the object results / ground truths it was evaluated with; scene score = recomputation from `manager.frame_results`
+with the LIBRARY's pooling rule (`divide_objects`, the mechanism the property names) and fresh `MetricsScore` objects; GT counts
+add up; one-frame scene = that frame's detection score; pooled AP invariant under a permuted insertion order (real manager run on
+the permuted order) for the labels whose pooled confidences are pairwise distinct.
+Not demanded (audit 3): that a look-up returns the very frame object (a defensive copy is fine: the frame is named by its
+frame_name); HOW a tracking score is built (no own CLEAR / TrackingMetricsScore construction, no "scene counts = sums of the frame
+rows"); an own bucketing rule; `used_frame`; exception classes.
 """
 from __future__ import annotations
 
@@ -77,8 +84,8 @@ THEOREMS = [
     ]
 ]
 RULE = (
-    "seeded random operation sequences (add/scene/lookup; quick 150 x <= 12 ops, thorough 3000 x <= 40 ops capped by a wall-clock budget, "
-    "the not-run remainder is listed as not-run:time-budget) over 2..5 generated frames, 2..5 estimate lists, 2..4 critical "
+    "seeded random operation sequences (add/scene/lookup; quick 150 x <= 12 ops, thorough 1200 x <= 40 ops: fixed case counts, no "
+    "wall-clock budget) over 2..5 generated frames, 2..5 estimate lists, 2..4 critical "
     "filters (x/y or distance ranges, narrow and wide, optional confidence thresholds), 1..2 pass/fail configs; detection and "
     "tracking task; base_link and map frame; patterns: random, narrow-then-wider filter on one GT frame, repeated identical "
     "calls, permuted frame orders (with the permuted run on a second real manager), one-frame scenes, scene before any add, "
@@ -87,13 +94,14 @@ RULE = (
 )
 TRUSTED = [
     "tracking view handed to the extended model: per stored result (uuid number, label number, GT uuid/label/is_fp, "
-    "get_matching(mode).value for the four modes, is_label_correct), bucketed by the own pooling rule; threshold lists and "
+    "get_matching(mode).value for the four modes, is_label_correct), bucketed by the library's divide_objects; threshold lists and "
     "their order read from manager.metrics_config.tracking_config",
-    "abstraction of a stored frame result handed to the model: own bucketing by label (estimate's label, GT's label when the "
-    "estimate's is not a target label), DynamicObjectWithPerceptionResult.is_result_correct and TPMetricsAph.get_value for the "
+    "abstraction of a stored frame result handed to the model: bucketing by label through the library's public divide_objects "
+    "(the pooling rule is not C13's subject), DynamicObjectWithPerceptionResult.is_result_correct and TPMetricsAph.get_value for the "
     "TP value per threshold (matching and TP decisions themselves are C01-C09, abstract here)",
-    "the reference for history-independence is a newly constructed PerceptionEvaluationManager (dataset_paths=[]; generated frames) "
-    "evaluating only that call (tracking: the predecessor call and that call)",
+    "the reference for history-independence is a newly constructed PerceptionEvaluationManager (dataset_paths=[], or the sample data "
+    "if an empty list is rejected; generated frames) evaluating only that call (tracking: the predecessor call and that call) in a "
+    "process of its own, forked from a server that has imported the library and evaluated nothing (os.fork; results as JSON)",
 ]
 ASSUMPTIONS = [
     "critical-filter target labels = the manager's target labels (frame-level Map raises KeyError otherwise)",
@@ -110,9 +118,14 @@ _TMP = None
 # ----------------------------------------------------------------------------- real objects
 
 def _tmpdir():
+    """one scratch directory per process, removed at exit (the reference server and its children use the parent's)"""
     global _TMP
     if _TMP is None:
+        import atexit
+        import shutil
+
         _TMP = tempfile.mkdtemp(prefix="c13_")
+        atexit.register(shutil.rmtree, _TMP, True)
     return _TMP
 
 
@@ -129,26 +142,55 @@ def _cfg_dict(task):
 _FIG = None
 
 
+def _sample_data():
+    d = core.REPO / "perception_eval" / "test" / "sample_data"
+    if not d.is_dir():  # raised HERE (harness code): a missing checkout is an infrastructure error, not "the loader raised"
+        raise RuntimeError(f"sample data not found: {d}")
+    return str(d)
+
+
+def _shared_figure():
+    global _FIG
+    if _FIG is None:
+        import matplotlib.pyplot as plt
+
+        _FIG = plt.subplots()
+    return _FIG
+
+
 def _manager(case, real_dataset):
-    """a newly constructed real manager.  Only matplotlib's figure creation (22 ms per manager, the
-    visualizer is never used here) is short-cut: all managers of this process share one figure."""
+    """a newly constructed real manager (set-up: every failure here propagates as a harness / infrastructure error).  Only
+    matplotlib's figure creation (22 ms per manager, the visualizer is never used here) is short-cut: all managers of this
+    process share one figure; if the visualizer stops accepting the short-cut the manager is built without it.  The reference
+    managers are built without a dataset (`dataset_paths=[]`); should the library come to reject an empty list they are built
+    on the sample data like the main manager (the generated frames replace the loaded ones in either case)."""
     import matplotlib.pyplot as plt
     from perception_eval.config import PerceptionEvaluationConfig
     from perception_eval.manager import PerceptionEvaluationManager
 
-    global _FIG
-    cfg = PerceptionEvaluationConfig(
-        dataset_paths=[str(core.REPO / "perception_eval" / "test" / "sample_data")] if real_dataset else [],
-        frame_id=case["frame_id"], result_root_directory=_tmpdir(), evaluation_config_dict=_cfg_dict(case["task"]),
-    )
-    orig = plt.subplots
-    if _FIG is None:
-        _FIG = orig()
-    plt.subplots = lambda *a, **k: _FIG
-    try:
-        return PerceptionEvaluationManager(cfg)
-    finally:
-        plt.subplots = orig
+    def build(paths, shortcut):
+        cfg = PerceptionEvaluationConfig(
+            dataset_paths=paths, frame_id=case["frame_id"], result_root_directory=_tmpdir(),
+            evaluation_config_dict=_cfg_dict(case["task"]),
+        )
+        if not shortcut:
+            return PerceptionEvaluationManager(cfg)
+        fig = _shared_figure()
+        orig = plt.subplots
+        plt.subplots = lambda *a, **k: fig
+        try:
+            return PerceptionEvaluationManager(cfg)
+        finally:
+            plt.subplots = orig
+
+    last = None
+    for paths in ([[_sample_data()]] if real_dataset else [[], [_sample_data()]]):
+        for shortcut in (True, False):
+            try:
+                return build(paths, shortcut)
+            except Exception as e:  # noqa: the next, more conservative way of building it
+                last = e
+    raise last
 
 
 class Universe:
@@ -245,28 +287,21 @@ def _label_index(m):
 
 
 def _bucket(m, results):
-    """own pooling rule: the estimate's label, the GT's label if the estimate's is no target label"""
-    idx = _label_index(m)
-    out = [[] for _ in idx]
-    for r in results:
-        l = r.estimated_object.semantic_label.label
-        if l not in idx:
-            if r.ground_truth_object is None:
-                continue
-            l = r.ground_truth_object.semantic_label.label
-            if l not in idx:
-                continue
-        out[idx[l]].append(r)
-    return out
+    """per target label the object results, filed by the LIBRARY's public pooling rule `divide_objects` (the property's
+    mechanism anchor: "get_scene_result: pools divide_objects buckets and GT counts over frame_results").  The statement says
+    "the score computed from the pooled per-frame object results" and does not say under which label a result is filed, so the
+    harness has no rule of its own here (AUDIT3 G5: an own re-implementation alarmed on a consistent change of the rule)."""
+    from perception_eval.evaluation.matching.objects_filter import divide_objects
+
+    d = divide_objects(list(results), list(m.target_labels))
+    return [list(d[l]) for l in m.target_labels]
 
 
 def _count(m, objects):
-    idx = _label_index(m)
-    out = [0] * len(idx)
-    for o in objects:
-        if o.semantic_label.label in idx:
-            out[idx[o.semantic_label.label]] += 1
-    return out
+    from perception_eval.evaluation.matching.objects_filter import divide_objects_to_num
+
+    d = divide_objects_to_num(list(objects), list(m.target_labels))
+    return [int(d[l]) for l in m.target_labels]
 
 
 def _maps_summary(score):
@@ -287,8 +322,14 @@ def _clear_row(c):
 
 
 def _ts_summary(ts):
-    mo, mp, sw = ts._sum_clear()
-    return {"mode": ts.matching_mode.value, "clears": [_clear_row(c) for c in ts.clears], "total": [_f(mo), _f(mp), int(sw)]}
+    out = {"mode": ts.matching_mode.value, "clears": [_clear_row(c) for c in ts.clears]}
+    # `_sum_clear` is a PRIVATE helper of TrackingMetricsScore (its only public outlet is the text of __str__) and is not
+    # named by the property: it is observed when it exists and dropped for the run otherwise, never a violation
+    fn = getattr(ts, "_sum_clear", None)
+    if callable(fn):
+        mo, mp, sw = fn()
+        out["total"] = [_f(mo), _f(mp), int(sw)]
+    return out  # without "total": histogram key `unobservable:_sum_clear` (see `branches`)
 
 
 def _track_summary(score):
@@ -352,50 +393,6 @@ def _tb_data(m, case, r):
     return out
 
 
-def _direct_tracking(m, hist, numgt):
-    """fresh real TrackingMetricsScore AND fresh real CLEAR objects (one per label) on the given per-label nested lists
-    `hist[label] = [f0, f1, …]` and GT counts; returns (summary via TrackingMetricsScore, rows via CLEAR)"""
-    from perception_eval.evaluation.metrics.tracking.clear import CLEAR
-    from perception_eval.evaluation.metrics.tracking.tracking_metrics_score import TrackingMetricsScore
-
-    labels = m.target_labels
-    via_tms, via_clear = [], []
-    for cfg in _tcfgs(m):
-        mode = _modes()[cfg["mode"]][0]
-        ts = TrackingMetricsScore(object_results_dict={l: [list(f) for f in hist[l]] for l in labels}, num_ground_truth_dict=dict(numgt),
-                                  target_labels=list(labels), matching_mode=mode, matching_threshold_list=list(cfg["thr"]))
-        via_tms.append(_ts_summary(ts))
-        rows = []
-        for l, t in zip(labels, cfg["thr"]):
-            rows.append(_clear_row(CLEAR(object_results=[list(f) for f in hist[l]], num_ground_truth=numgt[l], target_labels=[l],
-                                         matching_mode=mode, matching_threshold_list=[t])))
-        via_clear.append({"mode": mode.value, "clears": rows})
-    return {"tms": via_tms, "clear": via_clear}
-
-
-def _direct_scene(m):
-    labels = m.target_labels
-    hist = {l: [[]] for l in labels}
-    numgt = {l: 0 for l in labels}
-    for fr in m.frame_results:
-        b = _bucket(m, fr.object_results)
-        n = _count(m, fr.frame_ground_truth.objects)
-        for i, l in enumerate(labels):
-            hist[l].append(list(b[i]))
-            numgt[l] += n[i]
-    return _direct_tracking(m, hist, numgt)
-
-
-def _direct_frame(m):
-    """the last stored result against the one stored before it (`[]` per label if it is the first)"""
-    labels = m.target_labels
-    cur = m.frame_results[-1]
-    cb = _bucket(m, cur.object_results)
-    pb = _bucket(m, m.frame_results[-2].object_results) if len(m.frame_results) > 1 else [[] for _ in labels]
-    n = _count(m, cur.frame_ground_truth.objects)
-    return _direct_tracking(m, {l: [list(pb[i]), list(cb[i])] for i, l in enumerate(labels)}, {l: n[i] for i, l in enumerate(labels)})
-
-
 def _track_flat(tr):
     return [v for t in tr for c in t["clears"] for v in c]
 
@@ -450,23 +447,71 @@ def _det_data_t(m, U, case, r):
     return d
 
 
+def _obj_print(U, o):
+    """everything of an object the evaluation reads: a later evaluation must not find any of it changed"""
+    st = o.state
+    q = getattr(st.orientation, "q", st.orientation)
+    vel = None if st.velocity is None else [float(v) for v in st.velocity]
+    size = None if st.shape is None else [float(v) for v in st.size]
+    vis = getattr(o, "visibility", None)
+    return [U.h(o), o.semantic_label.label.value, [float(v) for v in st.position], float(o.semantic_score), o.uuid,
+            [float(v) for v in q], size, vel, o.pointcloud_num, getattr(vis, "value", vis), o.unix_time,
+            getattr(o.frame_id, "value", str(o.frame_id))]
+
+
+def _transforms_print(f):
+    """the registered transforms of a frame as {key text: 4x4 matrix}; None when the registry cannot be listed"""
+    items = getattr(getattr(f, "transforms", None), "items", None)
+    if not callable(items):
+        return None
+    return {str(k): [[float(v) for v in row] for row in mat.matrix] for k, mat in items()}
+
+
 def _snapshot(m, U, ests):
-    fp = lambda o: [U.h(o), o.semantic_label.label.value, [float(v) for v in o.state.position], float(o.semantic_score), o.uuid]
     return {
-        "frames": [[f.unix_time, f.frame_name, [fp(o) for o in f.objects]] for f in m.ground_truth_frames],
-        "ests": [[fp(o) for o in el] for el in ests],
+        "frames": [[f.unix_time, f.frame_name, [_obj_print(U, o) for o in f.objects]] for f in m.ground_truth_frames],
+        "transforms": [_transforms_print(f) for f in m.ground_truth_frames],
+        "ests": [[_obj_print(U, o) for o in el] for el in ests],
     }
 
 
-def _do_add(m, U, case, op):
+def _val_eq(a, b):
+    """snapshot equality: structure, strings and ints exactly; floats within 1e-9 (a benign re-normalisation of a quaternion
+    is not a modification of the dataset)"""
+    if isinstance(a, (list, tuple)) and isinstance(b, (list, tuple)):
+        return len(a) == len(b) and all(_val_eq(x, y) for x, y in zip(a, b))
+    if isinstance(a, float) and isinstance(b, float):
+        return core.close(a, b) or (math.isnan(a) and math.isnan(b))
+    return a == b
+
+
+def _transforms_kept(now, before):
+    """every transform registered when the case started is still registered with the same matrix (entries ADDED by the
+    library - e.g. a memoised inverse - do not modify what was loaded)"""
+    for n, b in zip(now, before):
+        if b is None or n is None:
+            continue
+        for k, mat in b.items():
+            if k not in n or not _val_eq(n[k], mat):
+                return False
+    return True
+
+
+def _specs(m, case, op):
+    """set-up of one add: the critical-filter and pass/fail configurations (constructed outside the judged call)"""
+    return _crit(m, case["crit"][op["a"]]), _pf(m, case["pf"][op["b"]])
+
+
+def _do_add(m, U, case, op, specs=None):
     f = case["frames"][op["k"]]
+    crit, pf = specs or _specs(m, case, op)
     if op.get("dt"):
         # ground truth interpolated by the library between frame k and k+1: a deep copy of the earlier frame
         # (registry included) whose ego pose is then replaced
         g = m.get_ground_truth_now_frame(f["time"] + op["dt"], THR_TIME, interpolate_ground_truth=True)
     else:
         g = m.get_ground_truth_now_frame(f["time"], THR_TIME)
-    return m.add_frame_result(f["time"], g, U.ests[op["e"]], _crit(m, case["crit"][op["a"]]), _pf(m, case["pf"][op["b"]]))
+    return m.add_frame_result(f["time"], g, U.ests[op["e"]], crit, pf)
 
 
 def _key(op):
@@ -474,11 +519,12 @@ def _key(op):
 
 
 def _scene_summary(m, sc):
-    return {"maps": _maps_summary(sc), "tracking": _track_summary(sc), "num_gt": sc.num_ground_truth, "used": list(sc.used_frame)}
+    return {"maps": _maps_summary(sc), "tracking": _track_summary(sc), "num_gt": sc.num_ground_truth}
 
 
 def _pooled_recompute(m):
-    """scene score from manager.frame_results with own pooling and a fresh MetricsScore"""
+    """scene score from manager.frame_results: the library's pooling rule (`divide_objects` per stored frame, see `_bucket`)
+    and a fresh MetricsScore"""
     from perception_eval.evaluation.metrics import MetricsScore
 
     labels = m.target_labels
@@ -501,122 +547,313 @@ def _pooled_recompute(m):
     return out
 
 
+# ----------------------------------------------------------------------------- the history-free reference (child processes)
+#
+# "gives the same result whatever other evaluations were performed earlier" is judged against the SAME call evaluated with
+# no history at all.  A new manager in this process is not enough: whatever the library keeps at module / class level
+# (a memo of the critical filter keyed by the frame's time stamp = defect F5 re-introduced as a cache) would be shared by the
+# stateful call and its reference (AUDIT3 G5 gap "process-global state is invisible").  Every reference evaluation therefore
+# runs in its OWN process: a server (`python -m harness.props.c13 --ref-server`) imports the library once, evaluates nothing,
+# and forks one child per job; the child builds the objects of the case from its JSON, a new manager, performs the one call
+# (tracking: the predecessor call and the call) and returns the summaries as JSON.  The operation sequence itself (job "main")
+# runs in such a child as well: what one case leaves behind at module level cannot reach the next case, so a case behaves in a
+# replay (new process) exactly as it did in the run.  The jobs of a case depend on the case alone and run side by side.
+
+_REF = None  # the server process
+_REF_JOBS = 8  # children running at a time
+
+
+def _ref_jobs(case):
+    """the reference evaluations of a case: one per distinct add, for tracking one per distinct (predecessor, add)"""
+    jobs, seen, prev = [{"kind": "main"}], set(), None
+    for op in case["ops"]:
+        if op["o"] != "add":
+            continue
+        k = ("single", _key(op))
+        if k not in seen:
+            seen.add(k)
+            jobs.append({"kind": "single", "op": op})
+        if case["task"] == "tracking" and prev is not None:
+            k = ("pair", _key(prev), _key(op))
+            if k not in seen:
+                seen.add(k)
+                jobs.append({"kind": "pair", "prev": prev, "op": op})
+        prev = op
+    return jobs
+
+
+def _ref_job(case, job):
+    """runs in a child process that has evaluated nothing before"""
+    if job["kind"] == "main":
+        return _main_job(case)
+    U = Universe(case)
+    m = _manager(case, False)
+    m.ground_truth_frames = list(U.frames)
+    if job["kind"] == "single":
+        r = _do_add(m, U, case, job["op"])
+        return {"sum": _frame_summary(m, U, r), "det": _det_data_t(m, U, case, r)}
+    _do_add(m, U, case, job["prev"])
+    r = _do_add(m, U, case, job["op"])
+    return {"track": _track_summary(r.metrics_score)}
+
+
+def _from_library(e):
+    """did the exception come out of a call into the real library (a frame of the package perception_eval in its traceback)?"""
+    tb = e.__traceback__
+    while tb is not None:
+        if str(tb.tb_frame.f_globals.get("__name__", "")).split(".")[0] == "perception_eval":
+            return True
+        tb = tb.tb_next
+    return False
+
+
+def _ref_server(tmp):
+    """the server loop: one request line {"case":…, "jobs":[…]} -> one response line [result per job]"""
+    import json
+    import logging
+    import os
+    import sys
+    import traceback
+    import warnings
+
+    global _TMP
+    warnings.filterwarnings("ignore")
+    logging.disable(logging.CRITICAL)
+    chan = os.fdopen(os.dup(1), "w")
+    os.dup2(2, 1)  # whatever the library prints does not disturb the protocol
+    _TMP = tmp
+    # imports only: the server itself never evaluates anything, every child starts from this state
+    import perception_eval.config  # noqa
+    import perception_eval.manager  # noqa
+    import perception_eval.evaluation.metrics  # noqa
+    import perception_eval.evaluation.result.perception_frame_config  # noqa
+    from harness import builders  # noqa
+
+    _shared_figure()
+    import gc
+
+    gc.collect()
+    gc.freeze()  # the children are short-lived copies: keep the collector from touching (= copying) the shared pages
+    for line in sys.stdin:
+        req = json.loads(line)
+        case, jobs = req["case"], req["jobs"]
+        results = [None] * len(jobs)
+        running = {}
+        nxt = 0
+        while nxt < len(jobs) or running:
+            while nxt < len(jobs) and len(running) < _REF_JOBS:
+                path = os.path.join(tmp, f"ref_{os.getpid()}_{nxt}.json")
+                pid = os.fork()
+                if pid == 0:
+                    try:
+                        gc.disable()
+                        try:
+                            res = {"ok": _ref_job(case, jobs[nxt])}
+                        except Exception as e:
+                            res = {"exc": type(e).__name__, "lib": _from_library(e), "trace": traceback.format_exc()[-800:]}
+                        with open(path, "w") as fh:
+                            json.dump(res, fh)
+                    finally:
+                        os._exit(0)
+                running[pid] = (nxt, path)
+                nxt += 1
+            pid, status = os.wait()
+            if pid not in running:
+                continue
+            i, path = running.pop(pid)
+            try:
+                with open(path) as fh:
+                    results[i] = json.load(fh)
+                os.unlink(path)
+            except Exception as e:
+                results[i] = {"exc": "ReferenceProcessDied", "lib": False, "trace": f"exit status {status}; {e!r}"}
+        chan.write(json.dumps(results) + "\n")
+        chan.flush()
+
+
+def _ref_start():
+    global _REF
+    if _REF is None or _REF.poll() is not None:
+        import atexit
+        import subprocess
+        import sys
+
+        import os
+
+        # the BLAS thread pool is re-created in every forked child (~0.1 s each on a 16-core host); the 4x4 products of the
+        # library are never threaded, so one thread changes no value
+        env = dict(os.environ, OPENBLAS_NUM_THREADS="1", OMP_NUM_THREADS="1", MKL_NUM_THREADS="1")
+        _REF = subprocess.Popen([sys.executable, "-W", "ignore", "-m", "harness.props.c13", "--ref-server", _tmpdir()],
+                                cwd=str(core.VERIF), env=env, stdin=subprocess.PIPE, stdout=subprocess.PIPE, text=True)
+
+        def stop(p=_REF):
+            try:
+                p.stdin.close()
+                p.wait(timeout=5)
+            except Exception:
+                p.kill()
+
+        atexit.register(stop)
+    return _REF
+
+
+def _ref_send(case, jobs):
+    import json
+
+    p = _ref_start()
+    p.stdin.write(json.dumps({"case": core.jsonable(case), "jobs": jobs}) + "\n")
+    p.stdin.flush()
+
+
+def _ref_receive(jobs):
+    """{("main",) | ("single", key) | ("pair", prevkey, key): summaries | {"lib_err": …}}; a failure of the harness side of a
+    job (or of the server) is an infrastructure error"""
+    import json
+
+    line = _REF.stdout.readline()
+    if not line:
+        raise RuntimeError("C13 reference server died")
+    out = {}
+    for job, res in zip(jobs, json.loads(line)):
+        k = (("main",) if job["kind"] == "main" else ("single", _key(job["op"])) if job["kind"] == "single"
+             else ("pair", _key(job["prev"]), _key(job["op"])))
+        if "ok" in res:
+            out[k] = res["ok"]
+        elif res.get("lib"):
+            out[k] = {"lib_err": res["exc"], "trace": res["trace"][-600:]}
+        else:
+            raise RuntimeError(f"C13 reference evaluation failed in the harness: {res.get('exc')}: {res.get('trace')}")
+    return out
+
+
 # ----------------------------------------------------------------------------- implementation run
 
-_T0 = None
-_GEN = 0
+def _main_job(case):
+    """the operation sequence on ONE real manager (runs in its own child process).  Set-up (objects, managers, configurations,
+    summaries) is outside the judged calls: an exception there propagates (infrastructure error, or "the real code raised …
+    unexpectedly" when it comes out of the library).  `out["err"]` is produced only by the calls the property is about:
+    get_ground_truth_now_frame / add_frame_result / get_scene_result."""
+    import traceback
+
+    ops = case["ops"]
+    outs = []
+    U = Universe(case)
+    m = _manager(case, True)
+    m.ground_truth_frames = list(U.frames)
+    snap0 = _snapshot(m, U, U.ests)
+    ests0 = [list(el) for el in U.ests]
+    returned = []  # (frame result handed to the caller, what it held right after its own add)
+    held = lambda r: [[[U.h(x.estimated_object), U.h(x.ground_truth_object)] for x in r.object_results],
+                      [U.h(g) for g in r.frame_ground_truth.objects]]
+
+    def failed(e, where=""):
+        return {"err": type(e).__name__, "at": len(outs), "outs": outs,
+                "trace": where + "".join(traceback.format_exception(type(e), e, e.__traceback__))[-600:]}
+
+    for i, op in enumerate(ops):
+        o = {"o": op["o"]}
+        if op["o"] == "add":
+            specs = _specs(m, case, op)
+            try:
+                r = _do_add(m, U, case, op, specs)
+            except Exception as e:
+                return failed(e)
+            o["st"] = _frame_summary(m, U, r)
+            returned.append((r, held(r)))
+        elif op["o"] == "scene":
+            try:
+                sc = m.get_scene_result()
+            except Exception as e:
+                return failed(e)
+            o["scene"] = _scene_summary(m, sc)
+            o["pooled"] = _pooled_recompute(m)
+            o["n_frames"] = len(m.frame_results)
+            if case["task"] == "tracking":
+                o["tcfgs"] = _tcfgs(m)
+                o["frame_tracks"] = [_track_summary(fr.metrics_score) for fr in m.frame_results]
+            if len(m.frame_results) == 1:
+                o["only_frame"] = _maps_summary(m.frame_results[0].metrics_score)
+        elif op["o"] == "lookup":
+            try:
+                g = m.get_ground_truth_now_frame(op["t"], THR_TIME)
+            except Exception as e:
+                return failed(e)
+            # which frame: by its NAME (the statement is about values - "does not modify … the loaded dataset" - a look-up
+            # may hand out the frame object itself or a defensive copy of it)
+            o["frame"] = None if g is None else int(g.frame_name)
+        snap = _snapshot(m, U, U.ests)
+        o["frames_ok"] = _val_eq(snap["frames"], snap0["frames"]) and _transforms_kept(snap["transforms"], snap0["transforms"])
+        # "does not modify the caller's estimate list": its content AND the very elements of the caller's lists
+        o["ests_ok"] = _val_eq(snap["ests"], snap0["ests"]) and all(
+            len(a) == len(b) and all(x is y for x, y in zip(a, b)) for a, b in zip(U.ests, ests0)
+        )
+        if not o["frames_ok"]:
+            o["frames_now"] = [[f[0], f[1], [x[0] for x in f[2]]] for f in snap["frames"]]
+        o["n_results"] = len(m.frame_results)
+        bad = [j for j, (r_, h0) in enumerate(returned) if held(r_) != h0]
+        o["stored_ok"] = not bad
+        if bad:
+            o["stored_diff"] = bad[:3]
+        outs.append(o)
+    res = {"outs": outs, "dataset": [[f.unix_time, int(f.frame_name), [U.h(x) for x in f.objects]] for f in m.ground_truth_frames]}
+    if snap0["transforms"] and any(t is None for t in snap0["transforms"]):
+        res["unobservable"] = ["FrameGroundTruth.transforms.items"]
+    if case["task"] == "tracking":
+        res["tcfgs"] = _tcfgs(m)
+    if case.get("perm") is not None:
+        adds = [op for op in ops if op["o"] == "add"]
+        U4 = Universe(case)
+        m4 = _manager(case, True)
+        m4.ground_truth_frames = list(U4.frames)
+        for j in case["perm"]:
+            specs = _specs(m4, case, adds[j])
+            try:
+                _do_add(m4, U4, case, adds[j], specs)
+            except Exception as e:
+                return failed(e, "permuted run: ")
+        try:
+            sc4, sc1 = m4.get_scene_result(), m.get_scene_result()
+        except Exception as e:
+            return failed(e, "permuted run: ")
+        res["perm_scene"] = _scene_summary(m4, sc4)
+        res["main_scene"] = _scene_summary(m, sc1)
+        res["main_pooled"] = _pooled_recompute(m)
+    return res
 
 
 def run_impl(case):
-    global _T0
-    import time
-
-    if _T0 is None:
-        _T0 = time.time()
-    if case.get("budget") and time.time() - _T0 > case["budget"]:
-        return {"not_run": True}  # the tier's wall-clock budget is used up (counted in the histogram)
+    """the sequence and every history-free reference, each in its own process (see above); this process only merges"""
     ops = case["ops"]
-    outs = []
-    try:
-        U = Universe(case)
-        m = _manager(case, True)
-        m.ground_truth_frames = list(U.frames)
-        snap0 = _snapshot(m, U, U.ests)
-        ests0 = [list(el) for el in U.ests]
-        single, pair = {}, {}
-
-        def fresh_single(op):
-            k = _key(op)
-            if k not in single:
-                U2 = Universe(case)
-                m2 = _manager(case, False)
-                m2.ground_truth_frames = list(U2.frames)
-                r2 = _do_add(m2, U2, case, op)
-                single[k] = {"sum": _frame_summary(m2, U2, r2), "det": _det_data_t(m2, U2, case, r2)}
-            return single[k]
-
-        def fresh_pair(prev, op):
-            k = (_key(prev), _key(op))
-            if k not in pair:
-                U3 = Universe(case)
-                m3 = _manager(case, False)
-                m3.ground_truth_frames = list(U3.frames)
-                r0 = _do_add(m3, U3, case, prev)
-                if _key(prev) not in single:
-                    single[_key(prev)] = {"sum": _frame_summary(m3, U3, r0), "det": _det_data_t(m3, U3, case, r0)}
-                r1 = _do_add(m3, U3, case, op)
-                pair[k] = _track_summary(r1.metrics_score)
-            return pair[k]
-
-        last_add = None
-        stored0 = []  # what every stored frame result held right after its own add (heap discipline: its cells are private)
-        stored_now = lambda fr: [[[U.h(x.estimated_object), U.h(x.ground_truth_object)] for x in fr.object_results],
-                                 [U.h(g) for g in fr.frame_ground_truth.objects]]
-        for i, op in enumerate(ops):
-            o = {"o": op["o"]}
-            if op["o"] == "add":
-                r = _do_add(m, U, case, op)
-                o["st"] = _frame_summary(m, U, r)
-                if case["task"] == "tracking":
-                    # the reference first: for a pair it also yields the predecessor's single evaluation
-                    o["track_ref"] = fresh_pair(last_add, op) if last_add is not None else None
-                fs = fresh_single(op)
-                o["fresh"] = fs["sum"]
-                o["det"] = fs["det"]
-                if case["task"] == "tracking" and last_add is None:
-                    o["track_ref"] = fs["sum"]["tracking"]
-                o["stored_is_returned"] = m.frame_results[-1] is r
-                if case["task"] == "tracking":
-                    o["track_direct"] = _direct_frame(m)
-                last_add = op
-            elif op["o"] == "scene":
-                sc = m.get_scene_result()
-                o["scene"] = _scene_summary(m, sc)
-                o["pooled"] = _pooled_recompute(m)
-                o["n_frames"] = len(m.frame_results)
-                if case["task"] == "tracking":
-                    o["tcfgs"] = _tcfgs(m)
-                    o["track_direct"] = _direct_scene(m)
-                    o["frame_tracks"] = [_track_summary(fr.metrics_score) for fr in m.frame_results]
-                if len(m.frame_results) == 1:
-                    o["only_frame"] = _maps_summary(m.frame_results[0].metrics_score)
-            elif op["o"] == "lookup":
-                g = m.get_ground_truth_now_frame(op["t"], THR_TIME)
-                idx = [j for j, f in enumerate(m.ground_truth_frames) if f is g]
-                o["frame"] = None if g is None else (idx[0] if idx else -1)
-            snap = _snapshot(m, U, U.ests)
-            o["frames_ok"] = snap["frames"] == snap0["frames"]
-            o["ests_ok"] = snap["ests"] == snap0["ests"] and all(
-                len(a) == len(b) and all(x is y for x, y in zip(a, b)) for a, b in zip(U.ests, ests0)
-            )
-            if not o["frames_ok"]:
-                o["frames_now"] = [[f[0], f[1], [x[0] for x in f[2]]] for f in snap["frames"]]
-            o["n_results"] = len(m.frame_results)
-            if op["o"] == "add":
-                stored0.append(stored_now(m.frame_results[-1]))
-            cur = [stored_now(fr) for fr in m.frame_results]
-            o["stored_ok"] = cur == stored0
-            if not o["stored_ok"]:
-                o["stored_diff"] = [j for j, (a, b) in enumerate(zip(cur, stored0)) if a != b][:3]
-            outs.append(o)
-        res = {"outs": outs, "dataset": [[f.unix_time, int(f.frame_name), [U.h(x) for x in f.objects]] for f in m.ground_truth_frames]}
-        if case["task"] == "tracking":
-            res["tcfgs"] = _tcfgs(m)
-        if case.get("perm") is not None:
-            adds = [op for op in ops if op["o"] == "add"]
-            U4 = Universe(case)
-            m4 = _manager(case, True)
-            m4.ground_truth_frames = list(U4.frames)
-            for j in case["perm"]:
-                _do_add(m4, U4, case, adds[j])
-            res["perm_scene"] = _scene_summary(m4, m4.get_scene_result())
-            res["main_scene"] = _scene_summary(m, m.get_scene_result())
-            res["main_pooled"] = _pooled_recompute(m)
+    jobs = _ref_jobs(case)
+    _ref_send(case, jobs)
+    refs = _ref_receive(jobs)
+    res = refs[("main",)]
+    if "lib_err" in res:
+        # outside the judged calls, but out of the library (e.g. a constructor): reported as "raised unexpectedly"
+        return {"err": res["lib_err"], "unexpected": True, "from_library": True, "trace": res["trace"]}
+    if "err" in res:
         return res
-    except Exception as e:  # the sequences are all valid inputs: an exception is reported by the oracle
-        import traceback
-
-        return {"err": type(e).__name__, "at": len(outs), "trace": traceback.format_exc()[-600:], "outs": outs}
+    last_add = None
+    for op, o in zip(ops, res["outs"]):
+        if op["o"] != "add":
+            continue
+        fs = refs[("single", _key(op))]
+        if "lib_err" in fs:
+            o["fresh_err"] = fs
+        else:
+            o["fresh"] = fs["sum"]
+            o["det"] = fs["det"]
+        if case["task"] == "tracking":
+            if last_add is None:
+                o["track_ref"] = None if "lib_err" in fs else fs["sum"]["tracking"]
+            else:
+                fp = refs[("pair", _key(last_add), _key(op))]
+                if "lib_err" in fp:
+                    o["fresh_err"] = fp
+                else:
+                    o["track_ref"] = fp["track"]
+        last_add = op
+    return res
 
 
 # ----------------------------------------------------------------------------- model side
@@ -682,8 +919,14 @@ def _trequest(case, out):
     return r
 
 
+def _no_model(out):
+    """no correspondence run: the sequence raised (judged by the oracle), or a history-free reference evaluation raised inside
+    the library (judged by the oracle as well) - the model is instantiated with those references"""
+    return "err" in out or any("fresh_err" in o for o in out.get("outs", []))
+
+
 def model_requests(case, out):
-    if "err" in out or "not_run" in out:
+    if _no_model(out):
         return []
     reqs = [_request(case, out)]
     if case.get("perm") is not None and "perm_scene" in out:
@@ -712,6 +955,8 @@ def _cmp_tscores(model, real, what):
             for name, rv, mv in (("tp", tp, mc["tp"]), ("tp_matching_score", score, mc["score"]), ("MOTA", mota, mc["mota"]), ("MOTP", motp, mc["motp"])):
                 if not core.close(rv, core.unq(mv)):
                     return f"{w} {name} real {rv} model {None if mv is None else float(core.unq(mv))}"
+        if "total" not in rt:
+            continue  # the private `_sum_clear` could not be resolved in this run (histogram `unobservable:_sum_clear`)
         mo, mp, sw = rt["total"]
         if mt["sw"] != sw or not core.close(mo, core.unq(mt["mota"])) or not core.close(mp, core.unq(mt["motp"])):
             return f"{what}: tracking_scores[{k}] ({rt['mode']}) _sum_clear real {rt['total']} model {[mt['mota'], mt['motp'], mt['sw']]}"
@@ -732,8 +977,7 @@ def _compare_tracking(case, out, tr):
                 return d
         elif a["o"] == "scene":
             sc = a["scene"]
-            if b["used"] != sc["used"]:
-                return f"{w}: used frames real {sc['used']} model {b['used']}"
+            # `used_frame` is not compared: the statement does not observe it
             if any(n != a["n_frames"] + 1 for n in b["n_frames"]):
                 return f"{w}: model history lengths {b['n_frames']} for {a['n_frames']} stored frames"
             d = _cmp_tscores(b["track"], sc["tracking"], w + " scene tracking = evalClear ([[]] ++ stored buckets, summed GT)")
@@ -742,6 +986,12 @@ def _compare_tracking(case, out, tr):
     if out["outs"] and tr["n_frame_results"] != out["outs"][-1]["n_results"]:
         return f"number of stored results real {out['outs'][-1]['n_results']} extended model {tr['n_frame_results']}"
     return None
+
+
+def _lookup_open(case, op):
+    """exact tie between two frames / exactly at the tolerance: which frame is "nearest" there is C17's subject"""
+    ds = sorted(abs(op["t"] - f["time"]) for f in case["frames"])
+    return ds[0] == THR_TIME or (len(ds) > 1 and ds[0] == ds[1])
 
 
 def _cmp_cols(model_ap, model_map, maps, what):
@@ -761,7 +1011,7 @@ def _cmp_cols(model_ap, model_map, maps, what):
 
 
 def compare(case, out, resps):
-    if "err" in out or "not_run" in out:
+    if _no_model(out):
         return None
     r = resps[0]
     mo = r["outs"]
@@ -801,14 +1051,12 @@ def compare(case, out, resps):
                     return f"{w}: pooled result counts real {sc['maps'][0]['n']} model {b['n_results']}"
             if b["total_gt"] != sc["num_gt"]:
                 return f"{w}: num_ground_truth real {sc['num_gt']} model {b['total_gt']}"
-            if b["used"] != sc["used"]:
-                return f"{w}: used frames real {sc['used']} model {b['used']}"
         else:
             # which frame is "nearest" on an exact tie / exactly at the tolerance is C17's subject: compared only when unambiguous
-            ds = sorted(abs(case["ops"][i]["t"] - f["time"]) for f in case["frames"])
-            if ds[0] == THR_TIME or (len(ds) > 1 and ds[0] == ds[1]):
+            # (counted: histogram key `skipped:lookup-tie-or-at-tolerance`)
+            if _lookup_open(case, case["ops"][i]):
                 continue
-            real = None if a["frame"] is None else (case["frames"][a["frame"]]["name"] if a["frame"] >= 0 else -1)
+            real = a["frame"]  # the NAME of the frame handed out (the frame object itself or a copy of it), or None
             if b.get("frame") != real or "err" in b:
                 return f"{w}: look-up real {real} model {b}"
     md = [[f["time"], f["name"], f["objects"]] for f in r["dataset"]]
@@ -863,26 +1111,6 @@ def _same_tracking(a, b):
     return None
 
 
-def _direct_check(tracking, direct):
-    return _same_tracking(tracking, direct["tms"]) or _same_tracking(tracking, direct["clear"])
-
-
-def _sums_check(scene_tracking, frame_tracks):
-    """scene id switches / tp / fp / tp_matching_score / predict_num / num_ground_truth = sums over the stored frame results"""
-    names = {2: "id_switch", 3: "tp", 4: "fp", 5: "predict_num", 6: "num_ground_truth", 7: "tp_matching_score"}
-    for i, ft in enumerate(frame_tracks):
-        if len(ft) != len(scene_tracking) or any(len(a["clears"]) != len(b["clears"]) for a, b in zip(ft, scene_tracking)):
-            return f"stored frame result {i} has {len(ft)} tracking scores, the scene has {len(scene_tracking)}"
-    for k, ts in enumerate(scene_tracking):
-        for li, row in enumerate(ts["clears"]):
-            for j, name in names.items():
-                tot = sum((ft[k]["clears"][li][j] or 0) for ft in frame_tracks)
-                if not core.close(row[j], tot):
-                    return (f"scene {name} of CLEAR[{ts['mode']}][{LABELS[li]}] is {row[j]}, the stored frame results have "
-                            f"{[ft[k]['clears'][li][j] for ft in frame_tracks]} (sum {tot})")
-    return None
-
-
 _DET_KEYS = ("frame_name", "unix_time", "results", "gt", "numgt", "tp", "fp", "fn", "tn", "num_gt")
 
 
@@ -893,27 +1121,45 @@ def _same_det(a, b):
     return _same_maps(a["maps"], b["maps"])
 
 
+def _unexpected(out):
+    """an exception escaped `run_impl` (the runner of the new convention reports it itself and does not call the oracle; this
+    is for a runner that still does): out of the library = the real code failed; otherwise a harness error, not a violation"""
+    tr = str(out.get("trace", ""))
+    if out.get("from_library") or "perception_eval/perception_eval/" in tr.replace("\\", "/"):
+        return f"the real code raised {out.get('err')} unexpectedly: {tr[-300:]}"
+    raise RuntimeError(f"harness error in run_impl ({out.get('err')}): {tr[-400:]}")
+
+
 def oracle(case, out):
-    if "not_run" in out:
-        return None
+    if out.get("unexpected"):
+        return _unexpected(out)
     if "err" in out:
-        return f"the manager raised {out['err']} at operation {out['at']} of a valid sequence: {out.get('trace', '')[-300:]}"
+        return f"the manager raised {out['err']} at operation {out.get('at')} of a valid sequence: {str(out.get('trace', ''))[-300:]}"
     ops = case["ops"]
     seen = {}
+    n_adds = 0
     for i, (op, o) in enumerate(zip(ops, out["outs"])):
         w = f"op {i} {op}"
+        # "it does not modify the caller's estimate list or the loaded dataset"
         if not o["frames_ok"]:
             return f"{w}: the loaded dataset was modified: ground_truth_frames now {o.get('frames_now')}"
         if not o["ests_ok"]:
             return f"{w}: the caller's estimate list was modified"
+        # the frame results are what the scene pools ("the pooled per-frame object results", "ground-truth counts add up over
+        # frames"): a result handed to the caller must keep the object results / ground truths it was evaluated with
         if not o.get("stored_ok", True):
-            return (f"{w}: a stored frame result (frame_results{o.get('stored_diff')}) no longer holds the object results / ground "
-                    f"truths it held right after its own add_frame_result")
+            return (f"{w}: a frame result returned earlier (add number {o.get('stored_diff')}) no longer holds the object results / "
+                    f"ground truths it held right after its own add_frame_result")
         if op["o"] == "add":
-            # history independence: the same call on a fresh manager
+            n_adds += 1
+            # history independence ("gives the same result whatever other evaluations were performed earlier"): the same call
+            # on a new manager in a process that has evaluated nothing else
+            if "fresh_err" in o:
+                return (f"{w}: the call returned on this manager, the same call with no history (new manager, new process) raised "
+                        f"{o['fresh_err']['lib_err']}: {o['fresh_err']['trace'][-200:]}")
             d = _same_det(o["st"], o["fresh"])
             if d:
-                return f"{w}: result differs from the same call on a fresh manager — {d}"
+                return f"{w}: result differs from the same call on a fresh manager in a fresh process — {d}"
             k = _key(op)
             if k in seen:
                 d = _same_det(o["st"], out["outs"][seen[k]]["st"])
@@ -921,41 +1167,36 @@ def oracle(case, out):
                     return f"{w}: result differs from the identical call at op {seen[k]} — {d}"
             seen.setdefault(k, i)
             if case["task"] == "tracking":
+                # "(plus the immediately preceding frame for tracking scores)"
                 d = _same_tracking(o["st"]["tracking"], o["track_ref"] or [])
                 if d:
                     return f"{w}: tracking part differs from a fresh manager evaluating only the predecessor call and this call — {d}"
-                d = _direct_check(o["st"]["tracking"], o["track_direct"])
-                if d:
-                    return (f"{w}: tracking scores differ from fresh TrackingMetricsScore/CLEAR objects on [bucket of the previously "
-                            f"stored result, bucket of this result] with this frame's GT counts — {d}")
         elif op["o"] == "scene":
+            # "The scene-level score equals the score computed from the pooled per-frame object results"
             sc, po = o["scene"], o["pooled"]
             d = _same_maps(sc["maps"], po["maps"]) or _same_tracking(sc["tracking"], po["tracking"])
             if d:
                 return f"{w}: scene score differs from the score of the pooled frame results — {d}"
-            if case["task"] == "tracking":
-                d = _direct_check(sc["tracking"], o["track_direct"])
-                if d:
-                    return (f"{w}: scene tracking scores differ from fresh TrackingMetricsScore/CLEAR objects on [[]] + the buckets of "
-                            f"manager.frame_results with the summed GT counts — {d}")
-                d = _sums_check(sc["tracking"], o["frame_tracks"])
-                if d:
-                    return f"{w}: {d}"
+            # "ground-truth counts add up over frames"
             if sc["num_gt"] != po["num_gt"] or sc["num_gt"] != sum(po["numgt"]):
                 return f"{w}: scene num_ground_truth {sc['num_gt']} is not the sum over frames {po['numgt']}"
-            stored = [x["st"]["numgt"] for x in out["outs"][:i] if x["o"] == "add"]
-            sums = [sum(c[l] for c in stored) for l in range(len(LABELS))]
             for mp in sc["maps"]:
-                if mp["ngt"] != sums:
-                    return f"{w}: per-label GT counts {mp['ngt']} are not the sums over the stored frames {sums}"
+                if mp["ngt"] != po["numgt"]:
+                    return f"{w}: per-label GT counts {mp['ngt']} are not the sums over manager.frame_results {po['numgt']}"
+            if o["n_frames"] == n_adds:  # every add so far is still held by the manager: the counts the adds reported
+                stored = [x["st"]["numgt"] for x in out["outs"][:i] if x["o"] == "add"]
+                sums = [sum(c[l] for c in stored) for l in range(len(LABELS))]
+                for mp in sc["maps"]:
+                    if mp["ngt"] != sums:
+                        return f"{w}: per-label GT counts {mp['ngt']} are not the sums over the evaluated frames {sums}"
+            # "a one-frame scene reproduces that frame's detection score"
             if o["n_frames"] == 1:
                 d = _same_maps(sc["maps"], o["only_frame"])
                 if d:
                     return f"{w}: one-frame scene differs from that frame's detection score — {d}"
-        else:
-            if o["frame"] is not None and o["frame"] < 0:
-                return f"{w}: the look-up handed out a frame that is not one of manager.ground_truth_frames"
+        # look-ups: no clause of their own (which frame is C17's subject; that the dataset stays as loaded is judged above)
     if "perm_scene" in out:
+        # "pooled AP does not depend on the order in which frames were added when confidences are distinct"
         confs = out["main_pooled"]["confs"]
         a, b = out["main_scene"], out["perm_scene"]
         if a["num_gt"] != b["num_gt"]:
@@ -965,7 +1206,7 @@ def oracle(case, out):
                 return f"permuted insertion order {case['perm']}: pooled counts differ {ma['n']}/{ma['ngt']} vs {mb['n']}/{mb['ngt']}"
             for li in range(len(LABELS)):
                 if len(set(confs[li])) != len(confs[li]):
-                    continue  # ties: the ranking among equal confidences is by insertion order
+                    continue  # "when confidences are distinct": no claim for this label (counted: `skipped:perm-label-tied`)
                 for k in ("aps", "aphs"):
                     if not core.close(ma[k][li], mb[k][li]):
                         return (f"pooled {k}[{LABELS[li]}] ({ma['mode']}{ma['thr']}) depends on the insertion order "
@@ -1131,21 +1372,18 @@ def _gen_case(rng, max_ops, pattern):
 PATTERNS = ["random", "random", "random", "narrow_wide", "narrow_wide", "repeat", "perm", "perm", "single", "empty_scene", "track_seq", "track_seq"]
 
 
+N_CASES = {"quick": 150, "thorough": 1200}  # fixed case counts: the coverage of a tier does not depend on the machine's load
+
+
 def generate(rng, tier):
-    """quick: 150 sequences x <= 12 ops; thorough: 3000 sequences x <= 40 ops, of which as many are executed as fit
-    into the tier's wall-clock budget (the rest is counted as `not-run:time-budget`; a replayed case always runs).
-    Only the first generation of a run is budgeted: the runner's failing-input search has its own time limit."""
-    global _GEN
-    n, max_ops, budget = (150, 12, 62) if tier == "quick" else (3000, 40, 440)
+    """quick: 150 sequences x <= 12 ops; thorough: 1200 sequences x <= 40 ops.  Budgeted by COUNT (no wall-clock decides what
+    is run) and the case JSON carries nothing but the sequence."""
+    n, max_ops = (N_CASES["quick"], 12) if tier == "quick" else (N_CASES["thorough"], 40)
     cases = []
     for i in range(n):
         pattern = PATTERNS[i % len(PATTERNS)]
         mo = max_ops if (tier == "quick" or i % 4 == 0) else rng.choice([8, 12, 16, 24])
-        c = _gen_case(rng, mo, pattern)
-        if _GEN == 0:
-            c["budget"] = budget
-        cases.append(c)
-    _GEN += 1
+        cases.append(_gen_case(rng, mo, pattern))
     return cases
 
 
@@ -1201,12 +1439,12 @@ def corpus():
 # ----------------------------------------------------------------------------- reporting
 
 def branches(case, out):
-    if "not_run" in out:
-        return ["trivial", "not-run:time-budget"]
     if "err" in out:
-        return ["err:" + out["err"]]
+        return ["err:" + str(out["err"])]
     ops = case["ops"]
     adds = [o for o in out["outs"] if o["o"] == "add"]
+    if any("fresh_err" in o for o in adds):
+        return ["err:reference:" + next(o["fresh_err"]["lib_err"] for o in adds if "fresh_err" in o)]
     br = [f"task:{case['task']}", f"frame_id:{case['frame_id']}", f"pattern:{case.get('pattern')}",
           f"ops:{min(len(ops) // 4 * 4, 40)}+", f"adds:{min(len(adds), 10)}", f"frames:{len(case['frames'])}"]
     if not any(o["st"]["results"] or o["st"]["gt"] for o in adds):
@@ -1236,9 +1474,15 @@ def branches(case, out):
             br.append("scene:ap-fractional")
         if any(v is not None and 0 < v < 1 and not core.close(v, w) for mp in o["scene"]["maps"] for v, w in zip(mp["aphs"], mp["aps"])):
             br.append("scene:aph-weighted")
-    for o in out["outs"]:
+    for op, o in zip(ops, out["outs"]):
         if o["o"] == "lookup":
             br.append("lookup:" + ("none" if o["frame"] is None else "hit"))
+            if _lookup_open(case, op):
+                br.append("skipped:lookup-tie-or-at-tolerance")
+    for name in out.get("unobservable", []):
+        br.append("unobservable:" + name)
+    if case["task"] == "tracking" and any("total" not in t for o in adds for t in o["st"]["tracking"]):
+        br.append("unobservable:_sum_clear")
     if any(o["st"]["fp"] for o in adds):
         br.append("add:fp")
     if any(o["st"]["fn"] for o in adds):
@@ -1272,6 +1516,11 @@ def branches(case, out):
     if "perm_scene" in out:
         confs = out["main_pooled"]["confs"]
         br.append("perm:" + ("distinct" if all(len(set(c)) == len(c) for c in confs) else "with-ties"))
+        tied = sum(1 for c in confs if len(set(c)) != len(c))
+        if tied:
+            br.append("skipped:perm-label-tied")  # labels of this case without a claim of the order clause
+        if tied and all(len(set(c)) != len(c) for c in confs if c):
+            br.append("skipped:perm-every-pooled-label-tied")  # the order clause says nothing about this case
         if any(len(c) > 1 for c in confs):
             br.append("perm:pool>1")
     return br
@@ -1279,7 +1528,6 @@ def branches(case, out):
 
 def shrink(case):
     """drop operations, then estimates / ground truths (perm is dropped with the ops)"""
-    case = {k: v for k, v in case.items() if k != "budget"}
     ops = case["ops"]
     for i in range(len(ops)):
         c = dict(case, ops=ops[:i] + ops[i + 1:])
@@ -1300,3 +1548,10 @@ def shrink(case):
 def search(rng, st, disagreements):
     """extra sequences aimed at the history patterns (re-use of a GT frame, repeated calls, permutations)"""
     return [_gen_case(rng, 12, p) for p in ("narrow_wide", "repeat", "perm", "random", "track_seq") for _ in range(40)]
+
+
+if __name__ == "__main__":
+    import sys
+
+    if len(sys.argv) == 3 and sys.argv[1] == "--ref-server":
+        _ref_server(sys.argv[2])
